@@ -693,7 +693,11 @@ def check_confinement(facts, run, eff, cg):
         return
     callers = sorted(cg.callers(getter))
     run.floor("C13.P5", "callers of the thread-local accessor", len(callers), 4)
+    spliced = set(getattr(facts, "spliced_helpers", ()))
     for p in callers:
+        if p in spliced and not cg.callers(p):
+            # a private wrapper around the accessor that has been spliced into every caller: its body is examined there
+            continue
         ft = fn_terms(facts, p)
         okall = True
         why = []
